@@ -29,12 +29,16 @@ Record osnap := {
 Inductive okind :=
   | KFire (t : task)                              (* the driver fires the trigger of task t / creates foreign task t *)
   | KBegin (t : task)                             (* first statement of the function body *)
-  | KPre (t : task) (name : string) (km : bool)   (* immediately before task.unique(name, kill_me=km) *)
-  | KPost (t : task)                              (* immediately after it returned *)
+  | KPre (t : task) (ci : nat) (name : string) (km : bool)
+                                                  (* immediately before task.unique(name, kill_me=km), executed by a function
+                                                     defined in context ci (= the context the code resolves at call time) *)
+  | KPost (t : task) (who : option task)          (* immediately after it returned; who = task.name2id(name) evaluated there
+                                                     (None = NameError) *)
   | KNop (t : task)                               (* woke from a sleep / about to finish or raise *)
   | KQuiet.                                       (* driver: nothing can run until time advances *)
 
-Record oevent := { e_kind : okind; e_own : option (list (string * task)); e_snap : osnap }.
+(* e_own = (ci, what task.name2id() returned to the script code running in context ci at this marker) *)
+Record oevent := { e_kind : okind; e_own : option (nat * list (string * task)); e_snap : osnap }.
 
 Record ucase := {
   uc_legacy : bool;
@@ -79,7 +83,7 @@ Record vstate := {
   v_s : ustate;
   v_ls : list ulabel;               (* the path so far, newest first *)
   v_done : list (task * bool);      (* done status at the previous marker *)
-  v_post : option task;             (* a task.unique call that must return at the very next marker *)
+  v_post : option (task * string * string);   (* a task.unique(ctx, name) call that must return at the very next marker *)
   v_fired : list task               (* @task_unique tasks whose trigger has fired *)
 }.
 Definition v0 : vstate := {| v_s := init_state; v_ls := []; v_done := []; v_post := None; v_fired := [] |}.
@@ -91,7 +95,7 @@ Definition vdo (cfg : deviations) (v : vstate) (l : ulabel) : option vstate :=
   end.
 Definition vtry (cfg : deviations) (v : vstate) (l : ulabel) : vstate :=
   match vdo cfg v l with Some v' => v' | None => v end.
-Definition set_post (v : vstate) (p : option task) : vstate :=
+Definition set_post (v : vstate) (p : option (task * string * string)) : vstate :=
   {| v_s := v_s v; v_ls := v_ls v; v_done := v_done v; v_post := p; v_fired := v_fired v |}.
 Definition set_done (v : vstate) (d : list (task * bool)) : vstate :=
   {| v_s := v_s v; v_ls := v_ls v; v_done := d; v_post := v_post v; v_fired := v_fired v |}.
@@ -167,10 +171,9 @@ Definition snap_ok (cfg : deviations) (c : ucase) (s : ustate) (e : oevent) : bo
   && forallb (fun p => negb (memN (fst p) (live s)) && memN (fst p) (started s)) (o_done o)
   && Nat.eqb (length (o_views o)) (length (uc_ctxs c))
   && forallb (fun i => set_eqb st_eqb (view cfg (ctx_name c i) (n2t s)) (oview o i)) (seq 0 (length (uc_ctxs c)))
-  && match e_own e, e_kind e with
-     | Some w, (KBegin t | KPre t _ _ | KPost t | KNop t) => set_eqb st_eqb (view cfg (task_ctx c t) (n2t s)) w
-     | Some _, _ => false
-     | None, _ => true
+  && match e_own e with
+     | Some (ci, w) => Nat.ltb ci (length (uc_ctxs c)) && set_eqb st_eqb (view cfg (ctx_name c ci) (n2t s)) w
+     | None => true
      end.
 
 Definition subset_done (a b : list (task * bool)) : bool :=
@@ -182,9 +185,10 @@ Definition vevent (cfg : deviations) (c : ucase) (v : vstate) (e : oevent) : opt
   let quiet := match e_kind e with KQuiet => true | _ => false end in
   let post_ok :=
     match v_post v, e_kind e with
-    | Some t, KPost t' => N.eqb t t' && is_nil exits       (* a returning task.unique is atomic *)
+    | Some (t, ctx, name), KPost t' who =>                   (* a returning task.unique is atomic *)
+        N.eqb t t' && is_nil exits && option_eqb N.eqb who (owner cfg (v_s v) ctx name)
     | Some _, _ => false
-    | None, KPost _ => false
+    | None, KPost _ _ => false
     | None, _ => true
     end in
   if negb (subset_done (v_done v) (o_done o) && post_ok) then None else
@@ -208,8 +212,8 @@ Definition vevent (cfg : deviations) (c : ucase) (v : vstate) (e : oevent) : opt
               end
           | None => None
           end
-      | KPost t | KNop t => vdo cfg v2 (UNop t)
-      | KPre _ _ _ | KQuiet => Some v2
+      | KPost t _ | KNop t => vdo cfg v2 (UNop t)
+      | KPre _ _ _ _ | KQuiet => Some v2
       end in
     match v3o with
     | None => None
@@ -217,9 +221,9 @@ Definition vevent (cfg : deviations) (c : ucase) (v : vstate) (e : oevent) : opt
       if negb (snap_ok cfg c (v_s v3) e) then None else
       let v4o :=
         match e_kind e with
-        | KPre t name km =>
-            match vdo cfg v3 (UUnique t (task_ctx c t) name km) with
-            | Some v' => Some (set_post v' (if memN t (waiting (v_s v')) then None else Some t))
+        | KPre t ci name km =>
+            match vdo cfg v3 (UUnique t (ctx_name c ci) name km) with
+            | Some v' => Some (set_post v' (if memN t (waiting (v_s v')) then None else Some (t, ctx_name c ci, name)))
             | None => None
             end
         | _ => Some (set_post v3 None)
@@ -298,7 +302,8 @@ Definition other_views_ok (r : deviations) (c : ucase) (ci : nat) (ctx name : st
 (* clause numbers:  1 maps inverse   2 owner is live (release on exit)   3 unique returns / blocks as kill_me demands
    4 blocked caller is cancelled   5 caller is owner per name2id   6 earlier claimants are ended by the next quiescent point
    7 other names of the caller kept   8 other contexts untouched   9 @task_unique(kill_me) body started although owned
-   10 @task_unique function never ran without reason   11 task cancelled without reason *)
+   10 @task_unique function never ran without reason   11 task cancelled without reason
+   12 task.name2id() called by code of context ci lists exactly the names owned in ci (as the tables say) *)
 Fixpoint spec_events (r : deviations) (c : ucase) (prev : option osnap) (i : nat) (past : list pclaim)
          (evs : list oevent) : list (nat * nat) :=
   match evs with
@@ -306,13 +311,13 @@ Fixpoint spec_events (r : deviations) (c : ucase) (prev : option osnap) (i : nat
   | e :: rest =>
     let o := e_snap e in
     let f (n : nat) (b : bool) := if b then [] else [(i, n)] in
-    let base := f 1 (maps_inverse_ok o) ++ f 2 (owners_live_ok o) in
+    let base := f 1 (maps_inverse_ok o) ++ f 2 (owners_live_ok o)
+                ++ f 12 (match e_own e with Some (cj, w) => set_eqb st_eqb w (oview o cj) | None => true end) in
     match e_kind e with
-    | KPre t name km =>
-        let ci := task_ctxi c t in
+    | KPre t ci name km =>
         let ctx := ctx_name c ci in
         let own := vlookup name (oview o ci) in
-        let returned := match rest with e' :: _ => match e_kind e' with KPost t' => N.eqb t t' | _ => false end | [] => false end in
+        let returned := match rest with e' :: _ => match e_kind e' with KPost t' _ => N.eqb t t' | _ => false end | [] => false end in
         let must_block := km && match own with Some o' => negb (N.eqb o' t) | None => false end in
         let dn := next_quiet_done rest in
         let here :=
@@ -323,7 +328,12 @@ Fixpoint spec_events (r : deviations) (c : ucase) (prev : option osnap) (i : nat
                 | e' :: _ =>
                     let o' := e_snap e' in
                     (if task_ours c t then
-                       f 5 (match vlookup name (oview o' ci) with Some t' => N.eqb t' t | None => false end)
+                       f 5 (match vlookup name (oview o' ci) with Some t' => N.eqb t' t | None => false end
+                            && match e_kind e' with KPost _ (Some t') => N.eqb t' t | _ => false end
+                            && match e_own e' with
+                               | Some (cj, w) => Nat.eqb cj ci && match vlookup name w with Some t' => N.eqb t' t | None => false end
+                               | None => true
+                               end)
                        ++ f 6 (priors_done r past t ctx name dn)
                      else [])
                     ++ f 7 (forallb (fun j => forallb (fun p => if N.eqb (snd p) t then existsb (st_eqb p) (oview o' j) else true) (oview o j))
@@ -363,9 +373,9 @@ Fixpoint call_events (c : ucase) (i : nat) (evs : list oevent) : list (nat * tas
   | [] => []
   | e :: rest =>
     match e_kind e with
-    | KPre t name _ =>
-        let returned := match rest with e' :: _ => match e_kind e' with KPost t' => N.eqb t t' | _ => false end | [] => false end in
-        (if returned then [(i, t, task_ctx c t, name)] else []) ++ call_events c (S i) rest
+    | KPre t ci name _ =>
+        let returned := match rest with e' :: _ => match e_kind e' with KPost t' _ => N.eqb t t' | _ => false end | [] => false end in
+        (if returned then [(i, t, ctx_name c ci, name)] else []) ++ call_events c (S i) rest
     | KBegin t =>
         match task_dec c t with
         | Some (name, _) => (i, t, task_ctx c t, name) :: call_events c (S i) rest
@@ -377,8 +387,8 @@ Fixpoint call_events (c : ucase) (i : nat) (evs : list oevent) : list (nat * tas
 
 Definition self_kill (c : ucase) (t : task) : bool :=
   existsb (fun e => match e_kind e with
-                    | KPre t' name true =>
-                        N.eqb t t' && match vlookup name (oview (e_snap e) (task_ctxi c t)) with
+                    | KPre t' ci name true =>
+                        N.eqb t t' && match vlookup name (oview (e_snap e) ci) with
                                       | Some o' => negb (N.eqb o' t) | None => false end
                     | _ => false
                     end) (uc_events c).
